@@ -112,6 +112,25 @@ Theorem c06_copy_then_build_returns_supplied : forall m src t d,
     (is_long_head t d = true -> firstn 8 r = firstn 8 d /\ skipn 12 r = skipn 12 d).
 Proof. exact copy_then_build_returns_supplied. Qed.
 
+(* add_table: a call whose compilation (dump_table) fails leaves the builder exactly as it was — no tag
+   appears, contains/lookup/build are unchanged, a later copy_missing_tables still copies that tag —
+   and a successful one is add_raw of the compiled bytes.  (dump_table itself is external: C04/C05.) *)
+Theorem c06_add_table_err_noop : forall m t, add_table m t None = m.
+Proof. exact add_table_err_noop. Qed.
+Theorem c06_add_table_err_observations : forall m t k,
+  lookup k (add_table m t None) = lookup k m /\ contains (add_table m t None) k = contains m k /\
+  build (add_table m t None) = build m.
+Proof. exact add_table_err_observations. Qed.
+Theorem c06_add_table_ok_is_add_raw : forall m t bytes, add_table m t (Some bytes) = add_raw t bytes m.
+Proof. exact add_table_ok_is_add_raw. Qed.
+Theorem c06_failed_add_table_does_not_mask_copy : forall m src t d,
+  lookup t m = None -> In t (map r_tag (fr_records src)) -> table_data src t = Some d ->
+  lookup t (copy_missing_tables (add_table m t None) src) = Some d.
+Proof. exact failed_add_table_does_not_mask_copy. Qed.
+Theorem c06_apply_ops_drop_failed_add_table : forall (ops1 ops2 : list op) t d m0,
+  fold_left apply_op (ops1 ++ (4, t, d) :: ops2) (Some m0) = fold_left apply_op (ops1 ++ ops2) (Some m0).
+Proof. exact apply_ops_drop_failed_add_table. Qed.
+
 (* the bound on the number of tables in [pre] is sharp: from 4096 tables on build() panics *)
 Theorem c06_build_precondition_sharp : forall m, 4096 <= len m -> build m = None.
 Proof. exact build_too_many. Qed.
@@ -136,3 +155,8 @@ Print Assumptions c06_copy_missing_never_overrides.
 Print Assumptions c06_copy_missing_copies_missing.
 Print Assumptions c06_copy_then_build_returns_supplied.
 Print Assumptions c06_build_precondition_sharp.
+Print Assumptions c06_add_table_err_noop.
+Print Assumptions c06_add_table_err_observations.
+Print Assumptions c06_add_table_ok_is_add_raw.
+Print Assumptions c06_failed_add_table_does_not_mask_copy.
+Print Assumptions c06_apply_ops_drop_failed_add_table.
